@@ -33,6 +33,9 @@ def gen_history(rng, length, malformed_rate=0.08):
         sig = rng.choice(sigs)
         if r < 0.12 and sig not in taken:
             kind = rng.choice(["h1:%d" % rng.randint(0, 7), "h3:%d" % rng.randint(0, 7), "ign", "dfl"])
+            if kind in ("ign", "dfl") and rng.random() < 0.5:
+                # the special dispositions stay special whatever sa_flags they were installed with (SA_SIGINFO, ...)
+                kind += "+%x" % rng.choice([0x4, 0x4, 0x10000004, 0x40000000, 0x8000004])
             if kind[0] == "h" and rng.random() < 0.6:
                 # the foreign handler's own sa_flags: SA_RESETHAND, SA_NODEFER, SA_ONSTACK, SA_NOCLDSTOP, SA_RESTART
                 fl = 0
